@@ -182,6 +182,21 @@ fn collect(rep: &mut Report, v: &Value) {
     let opt: Vec<Option<f64>> = items.iter().map(|x| if *x == -1 { None } else { Some(*x as f64) }).collect();
     judge(rep, "collect_vec1_opt", &key, "Vec<f64>", catch(|| same(&opt.clone().into_iter().collect_vec1_opt::<Vec<f64>>())), v);
     judge(rep, "collect_vec1_opt", &key, "Array1<f64>", catch(|| same(&opt.clone().into_iter().collect_vec1_opt::<Array1<f64>>().to_vec())), v);
+    // ... and into element types that have no null: possible exactly when no item is missing
+    if first_error == 0 {
+        let oi: Vec<Option<i32>> = items.iter().map(|x| Some(*x as i32)).collect();
+        let want: Vec<i64> = items.clone();
+        let same_i = |got: Vec<i64>| -> Result<(), String> { if got == want { Ok(()) } else { Err(format!("collected {got:?}, want {want:?}")) } };
+        judge(rep, "collect_vec1_opt", &key, "Vec<i32>", catch(|| same_i(oi.clone().into_iter().collect_vec1_opt::<Vec<i32>>().into_iter().map(|x| x as i64).collect())), v);
+        judge(rep, "collect_vec1_opt", &key, "VecDeque<i32>", catch(|| same_i(oi.clone().into_iter().collect_vec1_opt::<VecDeque<i32>>().into_iter().map(|x| x as i64).collect())), v);
+        let ou: Vec<Option<usize>> = items.iter().map(|x| Some(*x as usize)).collect();
+        judge(rep, "collect_vec1_opt", &key, "Array1<usize>", catch(|| same_i(ou.clone().into_iter().collect_vec1_opt::<Array1<usize>>().into_iter().map(|x| x as i64).collect())), v);
+        let ob: Vec<Option<bool>> = items.iter().map(|x| Some(*x % 2 == 0)).collect();
+        judge(rep, "collect_vec1_opt", &key, "Vec<bool>", catch(|| {
+            let got: Vec<bool> = ob.clone().into_iter().collect_vec1_opt::<Vec<bool>>();
+            if got == items.iter().map(|x| *x % 2 == 0).collect::<Vec<_>>() { Ok(()) } else { Err(format!("collected {got:?}")) }
+        }), v);
+    }
     // fallible: the first error wins
     let fallible = || -> Vec<TResult<f64>> {
         items.iter().enumerate().map(|(i, x)| if *x == -1 { Err(terr!("e{}", i + 1)) } else { Ok(*x as f64) }).collect()
